@@ -28,7 +28,7 @@ def float_spec(rng):
     fl = "".join(f for f in "-+ #0" if rng.random() < 0.25)
     if "-" in fl and "0" in fl: fl = fl.replace("0", "")
     if "+" in fl and " " in fl: fl = fl.replace(" ", "")
-    return "%" + fl + rng.choice(["", "", "4", "12", "20"]) + rng.choice(["", "", ".0", ".1", ".3", ".8"]) + rng.choice(["", "", "l"]) + c
+    return "%" + fl + rng.choice(["", "", "4", "12", "20"]) + rng.choice(["", "", ".0", ".1", ".3", ".8"]) + rng.choice(["", "", "l", "L"]) + c
 
 def seg(rng, cls, ivals, fvals):
     if cls == "lit": return "L" + h(rng.choice(LITS))
@@ -163,10 +163,13 @@ def round_execs(rng, quick):
                                    ("hd", -2**15, 2**15 - 1), ("hhd", -128, 127), ("u", 0, 2**32 - 1), ("lu", 0, 2**63 - 1), ("$", -2**63, 2**63 - 1),
                                    ("jd", -2**63, 2**63 - 1), ("zd", -2**63, 2**63 - 1), ("td", -2**63, 2**63 - 1), ("zu", 0, 2**63 - 1), ("ji", -2**63, 2**63 - 1)])
         n = rng.randint(1, 6)
+        if rng.random() < 0.35:         # other separators than a blank: a literal per cent sign, letters that numbers could swallow (x: hex prefix)
+            seps = [b"%%", b"%% ", b", ", b"|"] + ([b"x", b"x "] if not spec.endswith("i") else [])      # (%i itself reads a 0x prefix: no x after it)
+            spec += "|" + h(rng.choice(seps))
         lines.append("ps %s %d %s I %d %s" % (rng.choice("SF"), rng.choice([0, 2]), spec, n, " ".join(str(v) for v in rng_in(lo, hi, n))))
     for _ in range(60 if quick else 600):
         n = rng.randint(1, 5)
-        lines.append("ps %s %d %s F %d %s" % (rng.choice("SF"), rng.choice([0, 2]), rng.choice(["lf", "le", "lg", "$", "f", "e", "g"]), n, " ".join("%016x" % rng.choice(fv) for _ in range(n))))
+        lines.append("ps %s %d %s F %d %s" % (rng.choice("SF"), rng.choice([0, 2]), rng.choice(["lf", "le", "lg", "$", "f", "e", "g", "Lf", "Le", "Lg"]) + (("|" + h(rng.choice([b"%% ", b", ", b"|"]))) if rng.random() < 0.3 else ""), n, " ".join("%016x" % rng.choice(fv) for _ in range(n))))
     # the stdout / stdin entry points (print, println, scan, scanln, look): lines of values written and read back in sequence
     def sval():
         k = rng.choice("IIFSS")
